@@ -26,6 +26,7 @@ From NV Require Import Proofs.DersEq210 Proofs.DersNdu Proofs.DersGeneral Proofs
 From NV Require Import Proofs.Boehm Proofs.DerivAnalytic Proofs.BasisOneR Proofs.DerivLink Proofs.DerivLinkCurve Proofs.EvalR.
 From NV Require Import Proofs.BasisR Proofs.DerivsR Proofs.DerivsRatSurf Proofs.DersRow0 Proofs.DerivsOrder0 Proofs.DersWindow Proofs.DersWindow56 Proofs.DerivsAgree Proofs.DerivsAgreeSurf Proofs.Boehm Proofs.Hodograph.
 From NV Require Import Run.DerivsH.
+From NV Require Import Proofs.DerivCptsSpec Proofs.DerivsAgreeGeneral Proofs.DerivsAgreeGeneralSurf.
 Import ListNotations.
 
 (* ------------------------------------------------------------------------------------------------ structure *)
@@ -650,3 +651,76 @@ Theorem C02_rat_surface_derivs_are_the_mixed_partials : forall (Uu Uv : list R) 
        (fun y => nth d (get3 (rat_surface_derivs Rops (S dim) (surface_derivs Rops (S dim) pu pv Uu Uv su sv Pw u y order) order) k l) 0%R)).
 Proof. exact rat_surface_derivs_are_mixed_partials_general. Qed.
 Print Assumptions C02_rat_surface_derivs_are_the_mixed_partials.
+
+(* ====================== both evaluator families agree for all degrees (round 2, Proofs/DerivsAgreeGeneral*.v) ====================== *)
+(* ===================== for Props/C02.v ===================== *)
+(* [G] Eq. 3.8, specification level: derivative control points, all degrees, all orders k <= p *)
+Theorem C02_deriv_cpts_represent_kth_derivative : forall U : nat -> R, (forall i, U i <= U (S i)) ->
+  forall (p k s n : nat) (P : nat -> R) (u : R), (k <= p)%nat -> (p <= s < n)%nat -> U s <= u < U (S s) ->
+  sumf (fun i => DerivAnalytic.dN U k p i u * P i) n = sumf (fun i => N U (p - k) (i + k) u * PK U p P k i) (n - k).
+Proof. exact deriv_cpts_full_range. Qed.
+Print Assumptions C02_deriv_cpts_represent_kth_derivative.
+
+(* [G] A3.3 computes PK *)
+Theorem C02_curve_deriv_cpts_is_PK : forall (p : nat) (kv : list R) (cpts : list (list R)) (r1 r2 order dim k i : nat),
+  (r1 + (r2 - r1) + p < length kv)%nat -> (forall i, (i <= r2 - r1)%nat -> length (nth (r1 + i) cpts []) = dim) ->
+  (k <= order)%nat -> (i + k <= r2 - r1)%nat ->
+  let e := nth i (nth k (curve_deriv_cpts Rops p kv cpts r1 r2 order) []) [] in
+  length e = dim /\ forall d, (d < dim)%nat -> nth d e 0 = PK (Ufun kv) p (fun m => coord cpts m d) k (r1 + i).
+Proof. exact curve_deriv_cpts_is_PK. Qed.
+Print Assumptions C02_curve_deriv_cpts_is_PK.
+
+(* [G] replaces C02_evaluator_families_agree_degree3_partial *)
+Theorem C02_evaluator_families_agree : forall (U : list R) (P : list (list R)) (p dim : nat),
+  sortedR U -> wf_net P dim -> (p < length P)%nat -> length U = (length P + p + 1)%nat ->
+  forall (u : R) (order : nat),
+  curve_derivs2 Rops dim p U P u order = curve_derivs Rops dim p U P u order.
+Proof. exact curve_derivs2_eq_curve_derivs. Qed.
+Print Assumptions C02_evaluator_families_agree.
+
+(* [G] the alternative curve evaluator returns the Eq. 2.9 sums = the true derivatives (DersGeneralCurve.v) *)
+Theorem C02_curve_derivs2_is_eq29_sum : forall (U : list R) (P : list (list R)) (p dim : nat),
+  sortedR U -> wf_net P dim -> (p < length P)%nat -> length U = (length P + p + 1)%nat ->
+  forall (u : R) (order k : nat), knR U p <= u < knR U (length P) -> (k <= order)%nat ->
+  let CK := curve_derivs2 Rops dim p U P u order in
+  length (nth k CK []) = dim /\ forall d, (d < dim)%nat -> nth d (nth k CK []) 0 = curve_dk U p P k d u.
+Proof. exact curve_derivs2_is_dN_sum_general. Qed.
+Print Assumptions C02_curve_derivs2_is_eq29_sum.
+
+(* [G] replaces C02_surface_evaluator_families_agree_degree22_partial *)
+Theorem C02_surface_evaluator_families_agree : forall (Uu Uv : list R) (P : list (list R)) (pu pv su sv dim : nat),
+  sortedR Uu -> sortedR Uv -> wf_net P dim -> length P = (su * sv)%nat -> (pu < su)%nat -> (pv < sv)%nat ->
+  length Uu = (su + pu + 1)%nat -> length Uv = (sv + pv + 1)%nat ->
+  forall (u v : R) (order : nat),
+  surface_derivs2 Rops dim pu pv Uu Uv su sv P u v order
+  = map (fun k => map (fun l => if Nat.leb (k + l) order
+                                then get3 (surface_derivs Rops dim pu pv Uu Uv su sv P u v order) k l
+                                else vzero Rops dim) (seq 0 (S order))) (seq 0 (S order)).
+Proof. exact surface_derivs2_is_triangle_of_surface_derivs. Qed.
+Print Assumptions C02_surface_evaluator_families_agree.
+
+Theorem C02_surface_derivs2_is_eq29_tensor : forall (Uu Uv : list R) (P : list (list R)) (pu pv su sv dim : nat),
+  sortedR Uu -> sortedR Uv -> wf_net P dim -> length P = (su * sv)%nat -> (pu < su)%nat -> (pv < sv)%nat ->
+  length Uu = (su + pu + 1)%nat -> length Uv = (sv + pv + 1)%nat ->
+  forall (u v : R) (order k l : nat), knR Uu pu <= u < knR Uu su -> knR Uv pv <= v < knR Uv sv -> (k + l <= order)%nat ->
+  length (get3 (surface_derivs2 Rops dim pu pv Uu Uv su sv P u v order) k l) = dim /\
+  forall d, (d < dim)%nat ->
+    nth d (get3 (surface_derivs2 Rops dim pu pv Uu Uv su sv P u v order) k l) 0 = surface_dkl Uu Uv pu pv su sv P k l d u v.
+Proof. exact surface_derivs2_is_dN_tensor_general. Qed.
+Print Assumptions C02_surface_derivs2_is_eq29_tensor.
+
+(* non-vacuity *)
+Example C02_agree_hypotheses_satisfiable :
+  let U := [0;0;0;1/2;1;1;1] in let P := [[0;0];[1;2];[3;1];[4;0]] in
+  sortedR U /\ wf_net P 2 /\ (2 < length P)%nat /\ length U = (length P + 2 + 1)%nat /\
+  curve_derivs2 Rops 2 2 U P (3/4) 3 = curve_derivs Rops 2 2 U P (3/4) 3.
+Proof.
+  cbv zeta.
+  assert (Hs : sortedR [0;0;0;1/2;1;1;1]).
+  { intros i j [Hij Hj]. cbn in Hj. unfold kn. cbn [o0 Rops].
+    do 7 (destruct i as [|i]; [do 7 (destruct j as [|j]; [try lia; cbn; lra|]); lia|]). lia. }
+  assert (Hw : wf_net [[0;0];[1;2];[3;1];[4;0]] 2).
+  { intros i Hi. cbn in Hi. do 4 (destruct i as [|i]; [reflexivity|]). lia. }
+  repeat split; try assumption; try (cbn; lia).
+  apply curve_derivs2_eq_curve_derivs; try assumption; cbn; lia.
+Qed.
